@@ -53,7 +53,8 @@ def install_effects(mod, fuel=400):
             return self.i
 
         def __exit__(self, et, ev, tb):
-            logf(("cm", self.i, "exit"), None if et is None else et.__name__)
+            # NameError and UnboundLocalError are one outcome class (CPython picks by how the name is compiled)
+            logf(("cm", self.i, "exit"), None if et is None else ("NameError" if issubclass(et, NameError) else et.__name__))
             return self.suppress
 
     mod.log, mod.boom, mod.f2, mod.cm = logf, boom, f2, cm
